@@ -414,6 +414,25 @@ func checkRT(c rtCase) (o pbt.Outcome, err error) {
 	if t1, t2 := writeText(al, c.Cfg), writeText(got, c.Cfg); t1 != t2 {
 		return o, fmt.Errorf("%s: the alignment read back is written differently at byte %d", c.Cfg, firstDiff(t1, t2))
 	}
+	if c.Cfg.Format == "fasta" {
+		// an alignment is also a set of sequences: the FASTA text read by the parser of sequence
+		// sets (ParseUnalign, what the command line uses under --unaligned) holds the same rows,
+		// and that set is written to the same text
+		text := writeText(al, c.Cfg)
+		sb, e := fasta.NewParser(strings.NewReader(text)).ParseUnalign()
+		if e != nil || sb == nil {
+			return o, fmt.Errorf("fasta: ParseUnalign refuses the writer's output: %v\ntext: %s", e, excerpt(text))
+		}
+		if rows := gen.Snapshot(sb); !gen.SameRows(rows, want.Rows) {
+			return o, fmt.Errorf("fasta: write then ParseUnalign changes the sequences\n got : %s\n want: %s", excerpt(gen.Show(rows)), excerpt(gen.Show(want.Rows)))
+		}
+		if sb.Alphabet() != want.Alphabet {
+			return o, fmt.Errorf("fasta: write then ParseUnalign: detected alphabet %s instead of %s", alphaName(sb.Alphabet()), alphaName(want.Alphabet))
+		}
+		if t2 := fasta.WriteAlignment(sb); t2 != text {
+			return o, fmt.Errorf("fasta: the sequence set read back is written differently at byte %d", firstDiff(text, t2))
+		}
+	}
 	o.NonTrivial = classify(&o, "", c.Cfg, full)
 	o.Class("shape: %s", shapeClass(c.Shape))
 	if c.Shape.Many > 0 {
